@@ -2,8 +2,8 @@
 import json
 
 RULE = ("TLC enumerates 48 integer DeepONet configurations (output dim 1-2, 1-3 neurons per component, two trunk and two "
-        "branch architectures, trunk input dim 1-2) each with 7 batches (1-3 functions x 1-3 locations in different "
-        "compositions; tensor / Points / callable branch input), a fix_input history and a fast-vs-plain probe; weights "
+        "branch architectures, trunk input dim 1-2) each with 10 batches (1-3 functions x 1-3 locations in different "
+        "compositions; tensor / Points / callable / FunctionSet / sum of FunctionSets as branch input), a fix_input history and a fast-vs-plain probe; weights "
         "in -2..2 (seeded); non-trivial = every configuration")
 
 
@@ -25,5 +25,4 @@ def run(ctx):
             c = t["calls"][1]
             ctx.sample({"config": {k: t["scenario"][k] for k in ("dim", "neurons", "th", "bh", "tdim")}, "functions": c["fids"], "locations": c["lids"], "B": c["B"], "T": c["T"], "Out": c["Out"]})
             break
-    ctx.assumptions += ["integer networks (weights -2..2, Identity branch / Square trunk activations, float64) make features, outputs, derivatives and gradients exact integers",
-                        "the FunctionSet form of the branch input is not driven (tensor, Points and callable are)"]
+    ctx.assumptions += ["integer networks (weights -2..2, Identity branch / Square trunk activations, float64) make features, outputs, derivatives and gradients exact integers"]
